@@ -102,12 +102,30 @@ func c17Script(c *Ctx, track bool, gen string) Case {
 	if err != nil {
 		panic(err)
 	}
-	p := rigParams{nick: start, ident: "id", name: "Real", version: "v", quit: "q", split: 450, sasl: "none", newNick: gen, track: track}
+	// in a quarter of the tracked scripts state tracking is switched on only at some point of the script (the client is
+	// on no channel throughout, which is when EnableStateTracking may be called), sometimes off and on again
+	lateAt := -1
+	if track && c.R.P(1, 4) {
+		lateAt = c.R.N(len(evs) + 1)
+	}
+	p := rigParams{nick: start, ident: "id", name: "Real", version: "v", quit: "q", split: 450, sasl: "none", newNick: gen, track: track && lateAt < 0}
 	rg := newRig(p)
 	cs := Case{Reqs: []string{p.req()}, Impl: []string{"ok"}}
 	var descs []string
 	nontrivial := false
 	for i, e := range evs {
+		if i == lateAt {
+			rg.conn.EnableStateTracking()
+			cs.Reqs = append(cs.Reqs, "cl track on")
+			cs.Impl = append(cs.Impl, "ok")
+			if c.R.P(1, 3) {
+				rg.conn.DisableStateTracking()
+				rg.conn.EnableStateTracking()
+				cs.Reqs = append(cs.Reqs, "cl track off", "cl track on")
+				cs.Impl = append(cs.Impl, "ok", "ok")
+			}
+			descs = append(descs, "(EnableStateTracking)")
+		}
 		f := map[string]string{}
 		for _, w := range strings.Fields(reps[i+1]) {
 			kv := strings.SplitN(w, "=", 2)
